@@ -1,8 +1,10 @@
-\* NOT part of the check: the specification with the two deviations found in the code switched on.
+\* NOT part of the check: the specification with the three deviations found in the code switched on.
 \*   CapZeroUnbounded = TRUE  finding C10:committed-cap-zero-passed-to-store-as-unbounded (fixed in
 \*                            /repo by 8a300f740): Append; Read(service, from 0) returns row 1 with hw = 0.
 \*   LastUncapped = TRUE      finding C10:last-visible-read-ignores-committed-cap (known):
 \*                            Append; Last(0) returns row 1 with hw = 0.
+\*   FwdDropsSyncOnce = TRUE  finding C10:forwarded-read-drops-sync-once-flag (known): a SyncOnce row
+\*                            appended, committed; SyncF returns it.
 \* TLC reports a violation of C10_ReadWindow (3-state counterexample).
 SPECIFICATION Spec
 CONSTANTS
@@ -10,6 +12,9 @@ CONSTANTS
   ISRs = {{1, 2}}
   MinISRs = {2}
   Stores = {"memory", "messagedb"}
+  FwdModes = {"miss", "old", "cur"}
+  PreLeos = {0}
+  PreBars = {0}
   MaxLeo = 2
   MaxB = 2
   Trims = {0}
@@ -20,6 +25,7 @@ CONSTANTS
   SyncEnds = {0}
   CapZeroUnbounded = TRUE
   LastUncapped = TRUE
+  FwdDropsSyncOnce = TRUE
 VIEW View
 INVARIANTS TypeOK C10_PhysBound
 PROPERTIES C10_ReadWindow C10_Monotone C10_TrimCovered
